@@ -768,3 +768,59 @@ def r_tab_attr(ctx, rep):
                     got = ("%d" % tot[1]) if tot[0] == 0 else "%d * cOffset + %d" % tot
                     rep.violation("R-TAB-ATTR", key, loc(a), "%s must consume %s payload bytes but the %s decoder consumes %s: the tokens after it are read from the wrong offset" % (sp["name"], sp["width"], which, got))
     rep.floor("R-TAB-ATTR", 14, "PtgAttr sub-kinds handled by the two decoders")
+
+
+# ----------------------------------------------------------------------------------------------
+# R-VARINT: the xlsb record header decoders read at most 2 (type) / 4 (length) bytes of 7 bits each
+
+def r_varint(ctx, rep):
+    """[MS-XLSB] 2.1.4: a record type is 1-2 bytes, a record size 1-4 bytes; each byte contributes its low 7 bits,
+    least significant group first, and bit 7 says another byte follows.  The two decoders are constant-bounded
+    loops over input bytes: partial evaluation of their MIR (constants computed, input bytes unknown, every branch
+    on an unknown explored) yields, per path, the number of bytes read and the shift amounts applied."""
+    from . import peval
+    F = ctx.facts("default")
+    for name, maxb in (("xlsb::RecordIter::read_type", 2), ("xlsb::RecordIter::fill_buffer", 4)):
+        key = "%s|R-VARINT" % name
+        ms = F.mir.get(name)
+        fn = F.fn(name)
+        if not ms or fn is None:
+            rep.anchor_missing("R-VARINT", name)
+            continue
+
+        def on_call(p, t, args):
+            c = norm(t.get("resolved") or t.get("callee")) or ""
+            if c.endswith("RecordIter::read_u8"):
+                p.events.append(("read",))
+            return None
+        try:
+            paths = peval.explore(ms[0], on_call)
+        except peval.Bound as ex:
+            rep.violation("R-VARINT", key, loc(fn.raw), "partial evaluation did not finish (%s): the decoder is no longer a constant-bounded loop over input bytes" % ex)
+            continue
+        want = [7 * i for i in range(1, maxb)]
+        worst = None
+        best = 0
+        masks = set()
+        for how, ev in paths:
+            reads = sum(1 for e in ev if e[0] == "read")
+            shifts = [e[1] for e in ev if e[0] == "Shl"]
+            masks |= {e[1] for e in ev if e[0] == "mask"}
+            if None in shifts:
+                worst = worst or "a shift amount is not a compile-time constant on some path"
+                continue
+            if shifts != want[:len(shifts)]:
+                worst = worst or "shift amounts %s on a path (expected a prefix of %s)" % (shifts, want)
+            if reads > maxb:
+                worst = worst or "a path reads %d bytes (at most %d allowed)" % (reads, maxb)
+            if reads not in (len(shifts) + 1, len(shifts) + 2) and not (reads == 0):
+                worst = worst or "a path reads %d bytes but applies %d shift(s)" % (reads, len(shifts))
+            best = max(best, reads)
+        if worst is None and best != maxb:
+            worst = "no path reads %d bytes (maximum found: %d): the largest legal value cannot be decoded" % (maxb, best)
+        if worst is None and not ({0x7F, 0x80} <= masks):
+            worst = "the masks 0x7F (payload bits) and 0x80 (continuation bit) are not both applied (found %s)" % sorted(m for m in masks if m is not None)
+        if worst:
+            rep.violation("R-VARINT", key, loc(fn.raw), "%s: %s" % (name.rsplit("::", 1)[-1], worst))
+        else:
+            rep.holds("R-VARINT", key, loc(fn.raw), "%d paths: at most %d bytes, 7-bit groups shifted by %s, continuation bit 0x80" % (len(paths), maxb, want))
